@@ -43,7 +43,8 @@ from mc.refs.pktcorpus import corpus, CORPUS_PATHS
 
 PID = "C15"
 MAX_CHAIN = 32             # links; the deepest valid corpus chain has 7
-BUDGET = 60000             # `line` events in pox/lib/packet per phase (valid frames need < 3000)
+JUMP_BUDGET = 20000        # backward jumps (loop iterations) inside the POX tree per phase
+LINE_BUDGET = 200000       # C15_GUARD=line: `line` events in pox/lib/packet per phase
 FIRST = 64                 # thorough: all 255 alternatives for the first FIRST bytes
 SLICES_Q, SLICES_T = 2, 24 # work items per (family, frame)
 
@@ -127,6 +128,7 @@ def pox_namespace ():
   class Conn (object):            # what PacketIn.__init__ reads from its connection
     dpid = 1
   P.conn = Conn()
+  P.guard = make_guard(P)
   _P = P
   return P
 
@@ -148,7 +150,8 @@ def exc_site (P, e):
 
 
 class SiteBudget (LineBudget):
-  """LineBudget that remembers where the budget ran out."""
+  """LineBudget (sys.settrace `line` events) that remembers where the budget ran out.  About 6x slower than
+  JumpBudget; used when C15_GUARD=line, as an independent cross-check of the step counter."""
   def __init__ (self, files, budget):
     LineBudget.__init__(self, files, budget)
     self.where = None
@@ -165,11 +168,72 @@ class SiteBudget (LineBudget):
     return self._local
 
 
+class JumpBudget (object):
+  """Step counter: counts BACKWARD jumps (loop iterations; sys.monitoring JUMP events) executed by code of the
+  POX tree and aborts the phase when the budget is exceeded.  Every non-terminating execution of pure Python code
+  either takes backward jumps for ever or recurses until RecursionError, so this decides termination like the
+  line budget does, at a few percent overhead.  The flag is latched and the exception (a BaseException) raised
+  again at every further backward jump, because POX's bare `except:` clauses may swallow it."""
+  TOOL = 3
+  active = None
+  installed = False
+  root = None
+  known = {}
+
+  def __init__ (self, root, budget):
+    self.budget = budget
+    self.count = 0
+    self.tripped = False
+    self.where = None
+    if not JumpBudget.installed:
+      mon = sys.monitoring
+      JumpBudget.root = root
+      if mon.get_tool(JumpBudget.TOOL) is None:
+        mon.use_tool_id(JumpBudget.TOOL, "c15-jump-budget")
+      mon.register_callback(JumpBudget.TOOL, mon.events.JUMP, JumpBudget._on_jump)
+      mon.set_events(JumpBudget.TOOL, mon.events.JUMP)
+      JumpBudget.installed = True
+
+  @staticmethod
+  def _on_jump (code, offset, dest):
+    fn = code.co_filename
+    inside = JumpBudget.known.get(fn)
+    if inside is None:
+      inside = JumpBudget.known[fn] = os.path.realpath(fn).startswith(JumpBudget.root)
+    if not inside or dest > offset:
+      return sys.monitoring.DISABLE          # this location can never count; stop reporting it
+    self = JumpBudget.active
+    if self is None: return None
+    self.count += 1
+    if self.count > self.budget:
+      if not self.tripped:
+        self.tripped = True
+        self.where = "%s:%s" % (os.path.basename(fn), getattr(code, "co_qualname", code.co_name))
+      raise LineBudget.BudgetExceeded()
+
+  def __enter__ (self):
+    self.count = 0; self.tripped = False; self.where = None
+    JumpBudget.active = self
+    return self
+
+  def __exit__ (self, t, v, tb):
+    JumpBudget.active = None
+    return t is LineBudget.BudgetExceeded
+
+
+GUARD = os.environ.get("C15_GUARD", "jump")
+
+def make_guard (P, budget=None):
+  if GUARD == "line":
+    return SiteBudget(P.traced, budget or LINE_BUDGET)
+  return JumpBudget(P.root, budget or JUMP_BUDGET)
+
+
 class Case (object):
   """One mutant examined.  bad: list of (key suffix, what); sig: digestable outcome."""
-  def __init__ (self, P, data, budget=BUDGET):
+  def __init__ (self, P, data, budget=None):
     self.P = P; self.data = data; self.budget = budget
-    self.bad = []; self.calls = 0; self.sig = []; self.text = None; self.maxlines = 0
+    self.bad = []; self.sites = {}; self.calls = 0; self.sig = []; self.text = None; self.maxlines = 0
 
   def fail (self, clause, what):
     self.bad.append((clause, what))
@@ -177,7 +241,8 @@ class Case (object):
   def guarded (self, phase, fn, *args):
     """Run one phase under the line budget.  Returns (ok, value)."""
     self.calls += 1
-    lb = SiteBudget(self.P.traced, self.budget)
+    lb = self.P.guard
+    if self.budget: lb.budget = self.budget
     val = None; err = None
     with lb:
       try:
@@ -187,12 +252,16 @@ class Case (object):
     if lb.count > self.maxlines: self.maxlines = lb.count
     if lb.tripped:
       self.fail("nonterminating:%s:%s" % (phase, lb.where),
-                "%s did not finish within %d lines of pox/lib/packet (spinning in %s)" % (phase, self.budget, lb.where))
+                "%s did not finish within %d %s (spinning in %s)" % (phase, lb.budget, "lines" if GUARD == "line" else "loop iterations", lb.where))
       self.sig.append((phase, "budget"))
       return False, None
     if err is not None:
       site = exc_site(self.P, err)
-      self.fail("raises:%s:%s" % (phase, site), "%s raised %s: %s" % (phase, type(err).__name__, str(err)[:120]))
+      # a site is reported under the first phase that reaches it (dump() calls str() of every header, str() of
+      # some headers calls pack()): one defect, one key
+      if site not in self.sites:
+        self.sites[site] = phase
+        self.fail("raises:%s:%s" % (phase, site), "%s() raised %s: %s" % (phase, type(err).__name__, str(err)[:120]))
       self.sig.append((phase, site))
       return False, None
     return True, val
@@ -237,38 +306,38 @@ class Case (object):
     if chain and chain[0].raw != data:
       self.fail("unparsed-raw:ethernet:top-raw-differs", "%s: ethernet.raw is not the offered frame" % tag)
 
-  def render (self, top, chain, pre):
-    """str() of every header, dump(), pack(), dump() again.  pre is the phase-name prefix."""
+  def render (self, top, chain):
+    """str() of every header, dump(), pack(), dump() again."""
     okall = True
     for h in chain:
-      ok, s = self.guarded(pre + "str", str, h)
+      ok, s = self.guarded("str", str, h)
       okall &= ok
       if ok and not isinstance(s, str):
-        self.fail("type:%sstr:%s:%s" % (pre, type(h).__name__, type(s).__name__), "str() returned a %s" % type(s).__name__)
-    ok, d = self.guarded(pre + "dump", top.dump)
+        self.fail("type:str:%s:%s" % (type(h).__name__, type(s).__name__), "str() returned a %s" % type(s).__name__)
+    ok, d = self.guarded("dump", top.dump)
     okall &= ok
     if ok:
       if not isinstance(d, str):
-        self.fail("type:%sdump:%s:%s" % (pre, type(top).__name__, type(d).__name__), "dump() returned a %s" % type(d).__name__)
+        self.fail("type:dump:%s:%s" % (type(top).__name__, type(d).__name__), "dump() returned a %s" % type(d).__name__)
       elif self.text is None: self.text = d
     # pack() of an unparsed header without payload must hand back what it was given
     for h in chain:
       if h.parsed is False and h.next is None and isinstance(h.raw, bytes):
         raw = h.raw
-        ok, b = self.guarded(pre + "pack", h.pack)
+        ok, b = self.guarded("pack", h.pack)
         okall &= ok
         if ok and b != raw:
           self.fail("unparsed-pack:%s" % type(h).__name__,
                     "pack() of an unparsed %s header returned something else than its raw input" % type(h).__name__)
-    ok, b = self.guarded(pre + "pack", top.pack)
+    ok, b = self.guarded("pack", top.pack)
     okall &= ok
     same = None
     if ok:
       if not isinstance(b, bytes):
-        self.fail("type:%spack:%s:%s" % (pre, type(top).__name__, type(b).__name__), "pack() returned a %s" % type(b).__name__)
+        self.fail("type:pack:%s:%s" % (type(top).__name__, type(b).__name__), "pack() returned a %s" % type(b).__name__)
       else:
         same = (b == self.data)
-      ok, d = self.guarded(pre + "dump", top.dump)
+      ok, d = self.guarded("dump", top.dump)
       okall &= ok
     return okall, same
 
@@ -282,14 +351,14 @@ class Case (object):
       shape = shape_of(chain, term)
       self.sig.append(shape)
       self.check_unparsed(chain, term, "direct")
-      okall, same = self.render(top, chain, "")
+      okall, same = self.render(top, chain)
       self.sig.append((okall, same))
     # ---- through a packet-in ----
-    ok, ev = self.guarded("packetin-build", _packet_in, P, data)
+    ok, ev = self.guarded("packetin", _packet_in, P, data)
     if ok:
       if ev.data != data:
         self.fail("packetin:data-changed", "the frame changed on its way through ofp_packet_in pack/unpack")
-      ok, top2 = self.guarded("packetin-parse", _parsed, ev)
+      ok, top2 = self.guarded("parse", _parsed, ev)
       if ok:
         if _parsed(ev) is not top2:
           self.fail("packetin:not-cached", "PacketIn.parsed returned a different object the second time")
@@ -298,7 +367,7 @@ class Case (object):
         if shape is not None and shape2 != shape:
           self.fail("packetin:chain-differs", "PacketIn.parsed gives %r, ethernet(raw=) gives %r" % (shape2, shape))
         self.check_unparsed(chain2, term2, "packetin")
-        okall2, same2 = self.render(top2, chain2, "packetin-")
+        okall2, same2 = self.render(top2, chain2)
         self.sig.append(("pi", okall2, same2))
     # one finding per key and case
     seen = set(); out = []
@@ -353,7 +422,6 @@ def _worker (item):
   P = pox_namespace()
   frame = corpus()[name]
   rep = Report(PID, "exploration")
-  rep.extra["max_lines_per_phase"] = 0
   best = {}
   maxlines = 0
   for j, (L, p, v) in enumerate(cases(family, frame)):
@@ -381,7 +449,6 @@ def _worker (item):
                         chain=jsonable_shape(c.sig), dump=c.text))
   rep.extra["_best"] = best
   rep.extra["_maxlines"] = maxlines
-  del rep.extra["max_lines_per_phase"]
   return rep
 
 
@@ -415,14 +482,16 @@ def run (cfg):
               "path): the frame itself; every truncation length 0..len-1; every byte position x replacement values "
               "{0x00,0xff,b^0x01,b^0x80,b+1}%s. Each mutant is parsed by ethernet(raw=) and via "
               "ofp_packet_in pack/unpack -> PacketIn.parsed, walked along .next, printed (str of every header, dump) "
-              "and re-packed, every phase under a budget of %d traced lines. distinct = distinct (frame, header "
+              "and re-packed, every phase under a budget of %d %s. distinct = distinct (frame, header "
               "chain with parsed flags, raising sites, pack()==input) digests; cases = distinct (frame, length, "
               "position, value) descriptors"
               % (len(C), sum(len(f) for f in C.values()),
                  "" if cfg.quick else "; all 255 alternative values for each of the first %d bytes; every truncation "
-                 "length x every corrupted position below it x the same value set" % FIRST, BUDGET))
+                 "length x every corrupted position below it x the same value set" % FIRST,
+                 LINE_BUDGET if GUARD == "line" else JUMP_BUDGET,
+                 "traced lines of pox/lib/packet" if GUARD == "line" else "loop iterations (backward jumps) inside the POX tree"))
   rep.bound = dict(frames=len(C), families=fams, first_bytes_all_values=(0 if cfg.quick else FIRST),
-                   line_budget=BUDGET, max_chain=MAX_CHAIN)
+                   guard=GUARD, budget=(LINE_BUDGET if GUARD == "line" else JUMP_BUDGET), max_chain=MAX_CHAIN)
   rep.assumptions = ["single-byte corruption (and truncation x single-byte corruption in the thorough tier) of the corpus "
                      "frames; multi-byte corruption and frames longer than the corpus frames are outside the bound",
                      "the statement does not say what a corrupted frame parses to: only totality, preservation of "
@@ -442,7 +511,7 @@ def run (cfg):
         if tuple(ok) < cur[0]: cur[0], cur[1], cur[2] = tuple(ok), what, replay
   rep.samples.sort(key=repr)
   rep.state_count = rep.evaluations
-  rep.extra["max_lines_per_phase"] = maxlines
+  rep.extra["max_steps_in_one_phase"] = maxlines
   for key in sorted(best):
     ok, what, replay, cnt = best[key]
     rep.violations[key] = dict(what="%s [frame %s, %d bytes]" % (what, replay["frame"], len(replay["hex"]) // 2),
